@@ -22,9 +22,10 @@ import (
 // knownSlug is the signature of the finding DESIGN.md expected for C20.
 const knownSlug = "l1-handle-cache-serves-replaced-node"
 
-// reorderSlug is the signature of the second finding (found by this check): Registry.Get returns
-// handles in another order than asked when only some of them are in the L2 cache, and the commit
-// pairs handles with nodes by position, so two nodes' blobs are written under each other's ids.
+// reorderSlug is the signature of the second finding (found by this check, repaired in /repo by
+// f6562708): Registry.Get returned handles in another order than asked when only some of them were
+// in the L2 cache, and the commit pairs handles with nodes by position, so two nodes' blobs were
+// written under each other's ids. The signature is still recognised so that a regression is named.
 const reorderSlug = "partial-l2-hit-reorders-handles-in-commit"
 
 // ReadStep is one read-all by one process.
@@ -77,7 +78,6 @@ type outcome struct {
 	nontrivial bool
 	labels     map[string]int
 	excluded   int
-	exclReorder int
 	commitErrs []string
 	trace      []string
 }
@@ -85,10 +85,7 @@ type outcome struct {
 type runner struct {
 	c      Case
 	listed bool // the known finding is listed: its class is excluded by construction
-	// listedReorder: reorderSlug is listed; commits never start with only part of the tree's handles in L2
-	listedReorder bool
-	l2Cleared     bool // standalone: the in-memory L2 was cleared since the process started
-	dir           string
+	dir    string
 	srv    *miniresp.Server
 	procs  []*proc
 	gens   []int
@@ -147,9 +144,6 @@ func (r *runner) start(p int) bool {
 func (r *runner) restart(p int) bool {
 	r.procs[p].stop()
 	r.gens[p]++
-	if !r.c.Clustered {
-		r.l2Cleared = false // the in-memory L2 lives in the process
-	}
 	return r.start(p)
 }
 
@@ -188,7 +182,6 @@ func (r *runner) action(a string) bool {
 			return r.sopError(n, "FLUSHDB through the adapter", resp)
 		}
 	case "l2clear":
-		r.l2Cleared = true
 		if resp, ok := r.call(0, Cmd{Kind: "l2clear"}); !ok {
 			return false
 		} else if resp.Err != "" {
@@ -422,47 +415,6 @@ func respDel(addr string, keys []string) error {
 	return nil
 }
 
-// beforeCommit applies the exclusion of the listed reorder finding: a commit never starts while
-// only part of the current trees' handles is in the L2 cache (then all of them are dropped first).
-func (r *runner) beforeCommit(p int) bool {
-	if !r.listedReorder {
-		return true
-	}
-	if !r.c.Clustered {
-		if r.l2Cleared {
-			r.out.exclReorder++
-			r.tracef("  excluded (%s): L2 cleared again right before the commit", reorderSlug)
-			if resp, ok := r.call(0, Cmd{Kind: "l2clear"}); !ok {
-				return false
-			} else if resp.Err != "" {
-				return r.sopError(0, "L2 Clear", resp)
-			}
-		}
-		return true
-	}
-	have := map[string]bool{}
-	for _, k := range r.srv.Keys() {
-		have[k] = true
-	}
-	for s := range r.cur {
-		present, absent := 0, 0
-		for lid := range r.cur[s] {
-			if have[lid] {
-				present++
-			} else {
-				absent++
-			}
-		}
-		if present > 0 && absent > 0 {
-			r.out.exclReorder++
-			r.tracef("  excluded (%s): %d of %d handles of %s are in Redis: Redis emptied right before the commit", reorderSlug, present, present+absent, r.names[s])
-			r.srv.Reset()
-			return true
-		}
-	}
-	return true
-}
-
 // txn runs one writing transaction and judges every operation's result against the model.
 func (r *runner) txn(p int, ops []Op, inTxn, end, what string) bool {
 	if !r.beforeTxn(p) {
@@ -521,9 +473,6 @@ func (r *runner) txn(p int, ops []Op, inTxn, end, what string) bool {
 		if !r.action(inTxn) {
 			return false
 		}
-	}
-	if end == "commit" && !r.beforeCommit(p) {
-		return false
 	}
 	resp, ok = r.call(p, Cmd{Kind: "end", End: end})
 	if !ok {
@@ -633,9 +582,9 @@ func (r *runner) readAll(p int, rs ReadStep, what string) bool {
 }
 
 // runCase executes one history. listed: exclude the class of the listed known finding.
-func runCase(c Case, listed, listedReorder bool) (out *outcome) {
+func runCase(c Case, listed bool) (out *outcome) {
 	out = &outcome{labels: map[string]int{}}
-	r := &runner{c: c, listed: listed, listedReorder: listedReorder, out: out, lastWriter: map[string]int{}}
+	r := &runner{c: c, listed: listed, out: out, lastWriter: map[string]int{}}
 	dir, err := os.MkdirTemp("", "c20-")
 	if err != nil {
 		r.harness("mkdtemp: %v", err)
